@@ -2,6 +2,7 @@
 // Every node carries a Scalar "id": it names the node in the log and in the fault plan. id 0 = anonymous
 // (used where interning must be in play, C06).
 #pragma once
+#include <hgraph/types/lift.h>
 #include "common.h"
 
 #include <hgraph/lib/std/operators/control.h>
@@ -145,6 +146,27 @@ namespace hv
         long long v;
         if (m.result(op, v)) { out.set(Int{v}); u_out(id, now, v); }
     }
+
+    // a scalar function lifted into a compute node with lift<F>(): its evaluator is the specialised lifted one, not the
+    // standard static-node evaluator. A lifted function sees values only (no id, no clock, no flags): the node id comes
+    // from a per-program slot table, the time from the observer.
+    inline constexpr const char *lift_names[4] = {"hv_lift2_0", "hv_lift2_1", "hv_lift2_2", "hv_lift2_3"};
+    template <int K>
+    struct LiftQ
+    {
+        static constexpr const char                     *name = lift_names[K];
+        static constexpr std::array<std::string_view, 2> parameter_names{"a", "b"};
+        [[nodiscard]] static Int apply(Int a, Int b)
+        {
+            const long long id = ctx().lift_id[K];
+            const long long t  = ctx().cycle_off;
+            Line("ev").i("id", id).i("t", t).raw("in", "[[1,null," + std::to_string(static_cast<long long>(a)) + "],[1,null," + std::to_string(static_cast<long long>(b)) + "]]").emit();
+            ctx().faults.maybe_throw(id, PH_EVAL);
+            const long long v = norm(static_cast<long long>(a) * 3 + static_cast<long long>(b) * 5 + 11);
+            Line("out").i("id", id).i("t", t).i("v", v).emit();
+            return Int{v};
+        }
+    };
 
     template <InputValidity V0 = InputValidity::Valid>
     struct C1
